@@ -148,6 +148,80 @@ def nestOf (get : List Nat → Option O) (dflt : O) : Shape → List Nat → Nes
   | [], pre => .leaf ((get pre).getD dflt)
   | n :: s, pre => .list ((List.range n).map (fun i => nestOf get dflt s (pre ++ [i])))
 
+/-! ### nested lists: `_from_list`, `_cat_non_tensor` -/
+
+def Nest.isList : Nest O → Bool
+  | .list _ => true
+  | .leaf _ => false
+
+def Nest.len : Nest O → Nat
+  | .list l => l.length
+  | .leaf _ => 0
+
+def Nest.items : Nest O → List (Nest O)
+  | .list l => l
+  | .leaf _ => []
+
+/-- the local `cat(lists, d)` of tensorclass.py:NonTensorData._cat_non_tensor: concatenation of nested python lists along
+level `d` (`lists` = the top-level lists of the items) -/
+def catNest : Nat → List (List (Nest O)) → List (Nest O)
+  | 0, lists => lists.flatten
+  | d + 1, lists => (transposeLists lists).map (fun group => .list (catNest d (group.map Nest.items)))
+
+/-- SPEC: the abstract concatenation of arrays `(get_k, n_k)` along the leading dim: position `i` belongs to the first
+array whose cumulated size exceeds it -/
+def catGet : List ((List Nat → Option O) × Nat) → List Nat → Option O
+  | [], _ => none
+  | (g, n) :: rest, c =>
+    match c with
+    | [] => none
+    | i :: c' => if i < n then g (i :: c') else catGet rest ((i - n) :: c')
+
+/-- SPEC: the abstract concatenation along dim `d` -/
+def catGetD : Nat → List ((List Nat → Option O) × Nat) → List Nat → Option O
+  | 0, arrs, c => catGet arrs c
+  | d + 1, arrs, c =>
+    match c with
+    | [] => none
+    | i :: c' => catGetD d (arrs.map (fun a => ((fun x => a.1 (i :: x)), a.2))) c'
+
+def sumN : List Nat → Nat
+  | [] => 0
+  | n :: r => n + sumN r
+
+/-- mirrors tensorclass.py:NonTensorStack._from_list(datalist, device, ndim=None) — what `_load_memmap` rebuilds the entry
+with from the JSON / pickled nested list: a level whose items are all lists of one length is a batch level, anything else
+is a level of payloads.  The payload type is the nested-list type itself: a payload may be a list. -/
+def fromListN : Nat → List (Nest O) → NT (Nest O)
+  | 0, items => .stack (items.map (fun it => .shared it [])) 0
+  | f + 1, items =>
+    if items.all Nest.isList && items.all (fun it => it.len == (items.headD (.list [])).len) then
+      .stack (items.map (fun it => fromListN f it.items)) 0
+    else .stack (items.map (fun it => .shared it [])) 0
+
+/-- tensorclass.py:NonTensorData._cat_non_tensor(list_of_non_tensor, dim) (what `torch.cat` of tensordicts does with a
+non-tensor entry): one shared entry iff every item is shared and all payloads agree, else the nested lists of the items are
+concatenated along `dim` and rebuilt with `_from_list(…, ndim=first.ndim)`.  Payloads are carried as leaves of the nested-list
+type. -/
+def catGeneral (l : List (NT O)) (d : Nat) : NT (Nest O) :=
+  fromListN (((l.head?.map shape).getD []).length - 1) (catNest d (l.map (fun r => (tolist r).items)))
+
+def catNT [DecidableEq O] (l : List (NT O)) (d : Nat) : NT (Nest O) :=
+  match l with
+  | [] => .stack [] 0
+  | .shared o s :: rest =>
+    if rest.all (fun m => sharedPayload m == some o) then
+      .shared (.leaf o) (s.set d (sumN ((NT.shared o s :: rest).map (fun r => (shape r).getD d 0))))
+    else catGeneral (.shared o s :: rest) d
+  | .stack ms sd :: rest => catGeneral (.stack ms sd :: rest) d
+
+/-- `entry.to_dict()` as `TensorDict.to_dict` stores it: NonTensorData → the payload, NonTensorStack → `tolist()` -/
+def toDictNT (r : NT O) : Nest O :=
+  match r with
+  | .shared o _ => .leaf o
+  | .stack _ _ => tolist r
+
+
 mutual
 /-- mirrors _lazy.py:_unsqueeze / NonTensorData via `_apply_nest` (new batch size) -/
 def unsqueeze : NT O → Nat → NT O
